@@ -818,6 +818,13 @@ func c19RunRoundTrip(c *fw.C, caseID string, i int) {
 	c.Distinct(fmt.Sprintf("rt/size=%d/pw=%s/exact", size, pwClass))
 	c.Count("roundtrips_exact", 1)
 
+	// one key store, several files (second backup, changed password): the store a caller hands to Encrypt lives in the
+	// caller's memory — an entropy slice with spare capacity behind it, inside a larger buffer — and every file made
+	// from it must decrypt to the entropy the store was created from.
+	if !c19EncryptAgain(c, r, ks, entropy, pw, size, i) {
+		return
+	}
+
 	// wrong passwords
 	vars := c19WrongPasswords(r, pw)
 	r.Shuffle(len(vars), func(a, b int) { vars[a], vars[b] = vars[b], vars[a] })
@@ -1164,6 +1171,54 @@ func c19RunSize(c *fw.C, caseID string, i int) {
 		c.Count("illegal_sizes_refused", 1)
 		c.Distinct(fmt.Sprintf("size/%d/refused-at-decrypt", n))
 	}
+}
+
+// c19EncryptAgain encrypts one key store twice; the store's entropy is a sub-slice of a sentinel-filled buffer with
+// `spare` bytes of capacity behind it (what append-grown slices, decoded mnemonics and pooled buffers look like).
+func c19EncryptAgain(c *fw.C, r *rand.Rand, ks *wallet.KeyStore, entropy []byte, pw string, size, i int) bool {
+	spare := []int{16, 0, 64, 4, 33}[i%5]
+	const lead = 4
+	buf := bytes.Repeat([]byte{0xA5}, lead+size+spare)
+	copy(buf[lead:], entropy)
+	st := *ks
+	st.Entropy = buf[lead : lead+size]
+	pws := []string{pw, c19Password(r, "ascii")}
+	var files []*wallet.KeyFile
+	for n, p := range pws {
+		kf, err := st.Encrypt(p)
+		c.Eval(1)
+		if err != nil || kf == nil {
+			c.Violation("encrypt-failed", c19Witness(nil, p, entropy, map[string]interface{}{"error": fmt.Sprint(err), "encrypt_call": n + 1, "spare_capacity": spare}))
+			return false
+		}
+		files = append(files, kf)
+		if !bytes.Equal(st.Entropy, entropy) {
+			c.Violation("encrypt-changes-the-key-store entropy", c19Witness(kf, p, entropy, map[string]interface{}{"encrypt_call": n + 1, "spare_capacity": spare,
+				"entropy_in_store_after_encrypt": hex.EncodeToString(st.Entropy)}))
+			return false
+		}
+		if !bytes.Equal(buf[:lead], bytes.Repeat([]byte{0xA5}, lead)) || !bytes.Equal(buf[lead+size:], bytes.Repeat([]byte{0xA5}, spare)) {
+			c.Count("encrypt_wrote_around_the_entropy_slice", 1) // not a clause of the property: reported, not judged
+		}
+	}
+	for n, kf := range files {
+		d := c19Decrypt(kf, pws[n])
+		c.Eval(1)
+		if !d.ok() {
+			c.Violation("roundtrip-decrypt-failed", c19Witness(kf, pws[n], entropy, map[string]interface{}{"outcome": d.class(), "path": fmt.Sprintf("file %d of one key store", n+1), "spare_capacity": spare}))
+			return false
+		}
+		if !c19CheckStore(c, d.ks, entropy, fmt.Sprintf("file %d of one key store", n+1), kf, pws[n]) {
+			return false
+		}
+		if !bytes.Equal(kf.BaseAddress.Bytes(), d.ks.BaseAddress.Bytes()) {
+			c.Violation("file-base-address-not-index-0", c19Witness(kf, pws[n], entropy, map[string]interface{}{"path": fmt.Sprintf("file %d of one key store", n+1)}))
+			return false
+		}
+	}
+	c.Count("key_stores_encrypted_twice", 1)
+	c.Distinct(fmt.Sprintf("rt/twice/size=%d/spare=%d", size, spare))
+	return true
 }
 
 // ---------------------------------------------------------------------------
